@@ -34,7 +34,7 @@ def protocols():
                    all(a.type != 'object' or a.allow_null for a in m.args) for m in pi.msgs))
         _ENUM_MSGS = {}
         for n, pi in _P.items():
-            ms = [m for m in pi.msgs if any(a.enum and a.type in ('int', 'uint') for a in m.args)
+            ms = [m for m in pi.msgs if any((a.enum and a.type in ('int', 'uint')) or a.type == 'array' for a in m.args)
                   and all(a.type != 'object' or a.allow_null for a in m.args)
                   and not (n == 'wl_registry' and m.name == 'bind')]
             if ms:
@@ -136,7 +136,7 @@ class ConnGen:
                 return ['str', None]
             return ['str', d.choice(STRS)]
         if t == 'array':
-            return ['array', d.choice([0, 4, 8, 64])]
+            return ['array', d.choice([0, 4, 8, 12, 20, 64])]
         if t == 'fd':
             return ['fd', d.int(0, 64)]
         if t == 'object':
